@@ -9,11 +9,11 @@ echo "## suite with the change"
 cargo nextest run --workspace --no-fail-fast --offline --test-threads 8 2>&1 | tail -2
 cp "SEED/demo/$demo" "abra_core/tests/$demo"
 echo "## demo with the change (expected: FAILED)"
-cargo test -p abra_core --test "$name" --offline "$@" 2>&1 | grep -E "^test result|error(\[|:)" | head -3
+cargo test -p abra_core --test "$name" --offline "$@" 2>&1 | grep -E "^test result|error(\[|:)" | tail -4
 git diff -- . ':!SEED' > /tmp/verify_seed_patch.diff
 git checkout -q -- abra_core/src modules 2>/dev/null
 echo "## demo without the change (expected: ok)"
-cargo test -p abra_core --test "$name" --offline "$@" 2>&1 | grep -E "^test result|error(\[|:)" | head -3
+cargo test -p abra_core --test "$name" --offline "$@" 2>&1 | grep -E "^test result|error(\[|:)" | tail -4
 git apply /tmp/verify_seed_patch.diff
 rm -f "abra_core/tests/$demo"
 git status --short | head -5
